@@ -133,5 +133,5 @@ def run(r):
         traceback.print_exc()
         r.violation({"correspondence": "could not be run", "error": repr(e)}, found_input=False, name="C11-correspondence.json")
     r.cov["explanation"] = ("PARTIAL: the theorem is about the model (exception-class plumbing for all byte strings). That the real process does not exec/import/compile/write, "
-                            "stays within memory and time, is decided by monitored execution on the explored inputs only. Termination of the reader for all inputs "
-                            "(no OutOfFuel) is not yet a theorem.")
+                            "stays within memory and time, is decided by monitored execution on the explored inputs only. Termination of the reader MODEL for all inputs "
+                            "is a theorem (C11_reader_never_out_of_fuel: the fuel load() gives always suffices); wall-clock time of the real reader is observed.")
